@@ -19,7 +19,8 @@ DEFECTS = ['duplicate symbol', 'undefined OID parent', 'OID parent imported from
            'duplicate symbol of different kinds', 'import of the same symbol from two modules',
            'DEFVAL names an OID label imported from a module that lacks it', 'DEFVAL names an OID label imported from a module that was not found',
            'INDEX object imported from a module that lacks it', 'AUGMENTS row imported from a module that was not found',
-           'OBJECTS list names an undefined object', 'SYNTAX type imported from a module that lacks it (+ enum DEFVAL)']
+           'OBJECTS list names an undefined object', 'SYNTAX type imported from a module that lacks it (+ enum DEFVAL)',
+           'circular OID definition (two nodes)', 'OID node naming itself as parent', 'circular type definition']
 
 
 def pick(table, k):
@@ -101,9 +102,16 @@ def _bad(kind):
              m.sequence_type('AEntry', [('c1', 'Integer32')])]
     elif kind == 25:
         d = [m.object_group('grp', m.oid('iso', 5), ['ghostObj'])]
-    else:
+    elif kind == 26:
         imps = [('OTHER-MIB', ['NotThereType'])]
         d = [m.object_type('x', seq('NotThereType'), m.oid('iso', 5), descr=m.text('d'), defval=[LC('up')])]
+    elif kind == 27:
+        d = [m.value_decl('cycA', m.oid('cycB', 1)), m.value_decl('cycB', m.oid('cycA', 1))]
+    elif kind == 28:
+        d = [m.value_decl('selfish', m.oid('selfish', 1))]
+    else:
+        d = [m.type_decl('CycT', seq('CycU')), m.type_decl('CycU', seq('CycT')),
+             m.object_type('x', seq('CycT'), m.oid('iso', 5), descr=m.text('d'), defval=[tok.number_token(1)])]
     return imps, d
 
 
